@@ -33,6 +33,7 @@
 #include <cds/intrusive/treiber_stack.h>
 #include <cds/container/fcstack.h>
 #include <vcase.h>
+#include <alloca.h>
 #include <chrono>
 #include <memory>
 #include <stack>
@@ -138,6 +139,22 @@ struct fc_stack {
     bool pop( int& v ) { return s.pop( v ); }
 };
 
+template <class Stack>
+__attribute__((noinline)) static void do_op( Stack& st, vcase::op_t const& op )
+{
+    if ( op[0] == 1 && op.size() > 1 ) {
+        vcase::emitf( "inv_push %ld", op[1] );
+        bool b = st.push( (int) op[1] );
+        vcase::emitf( "ret_push %ld", b ? 1L : 0L );
+    }
+    else if ( op[0] == 2 ) {
+        vcase::emitf( "inv_pop" );
+        int v = 0;
+        bool b = st.pop( v );
+        vcase::emitf( "ret_pop %ld %ld", b ? 1L : 0L, b ? (long) v : 0L );
+    }
+}
+
 // ---- one case ----------------------------------------------------------------------------------------------
 template <class Stack>
 static void run_case( vcase::Case const& c, size_t cap )
@@ -152,17 +169,13 @@ static void run_case( vcase::Case const& c, size_t cap )
     vcase::run_workers( c, [&]( int t ) {
         for ( auto const& op : c.threads[t] ) {
             if ( op.empty()) continue;
-            if ( op[0] == 1 && op.size() > 1 ) {
-                vcase::emitf( "inv_push %ld", op[1] );
-                bool b = st->push( (int) op[1] );
-                vcase::emitf( "ret_push %ld", b ? 1L : 0L );
-            }
-            else if ( op[0] == 2 ) {
-                vcase::emitf( "inv_pop" );
-                int v = 0;
-                bool b = st->pop( v );
-                vcase::emitf( "ret_pop %ld %ld", b ? 1L : 0L, b ? (long) v : 0L );
-            }
+            // The elimination operation descriptor (with its atomic nStatus) lives on the stack of push()/pop().
+            // The model names it by (thread, operation index); so that the event log does the same, every
+            // operation runs 512 bytes deeper in the stack than the previous one (alloca accumulates until the
+            // body returns) and its descriptor therefore has an address no earlier descriptor had.
+            void * pad = alloca( 512 );
+            asm volatile( "" : : "r"( pad ) : "memory" );
+            do_op( *st, op );
         }
         bodies_done.fetch_add( 1 );
     },
